@@ -5,7 +5,10 @@
 // integer literal), an option set (PathSep, MaxIdx, EnableNumKeys, EscapePath)
 // and a use site (refs_test.go adds the site "name inside a reference"). The keys are fed to the library through that site; the stored tree,
 // the public structure queries, Unpack and the path-addressed getters must
-// then agree with the classification model of model_test.go.
+// then agree with the classification model of model_test.go. The option set is
+// passed as a LIST in which an option may occur several times (the last
+// occurrence counts, optseq_test.go); MaxIdx includes the boundary values of
+// its parameter type (MaxInt32, MaxInt64-1, MaxInt64).
 package c20
 
 import (
